@@ -781,6 +781,34 @@ Section Sim.
   Lemma lkeepA_other : forall fs fs' y, (forall k, y <> lregn k) -> (forall z, z <> y -> find_in_function z fs' = find_in_function z fs) -> lkeepA fs fs'.
   Proof. intros fs fs' y Hy H j. apply H. apply not_eq_sym. apply Hy. Qed.
 
+  (* no captured data variable is shadowed by a local outside B' *)
+  Definition ncd (B' : list str) (env : fenv) : Prop :=
+    forall y, In y CD -> lookup_scopes y (locals env) <> None -> In y B'.
+  Lemma ncd_mono : forall B1 B2 env, (forall y, In y B1 -> In y B2) -> ncd B1 env -> ncd B2 env.
+  Proof. intros B1 B2 env H H1 y Hy Hl. exact (H y (H1 y Hy Hl)). Qed.
+  Lemma lookup_skipn_ne : forall m l x, lookup_scopes x (skipn m l) <> None -> lookup_scopes x l <> None.
+  Proof.
+    induction m as [|m IH]; intros l x H; [exact H|]. destruct l as [|sc l]; [exact H|]. cbn [skipn] in H.
+    apply (lookup_tl_ne (sc :: l)). cbn [tl]. now apply IH.
+  Qed.
+  Lemma ncd_popn : forall B' env m, ncd B' env -> ncd B' (popn m env).
+  Proof. intros B' env m H y Hy Hl. apply (H y Hy). cbn [popn locals] in Hl. exact (lookup_skipn_ne _ _ _ Hl). Qed.
+  Lemma ncd_of_bound : forall B env, bound_in B env -> ncd B env.
+  Proof.
+    intros B env [H1 H2] y Hy Hl. pose proof (In_keys_assoc _ cdsc y Hy) as Ha.
+    destruct (assoc y cdsc) as [c0|] eqn:E; [|congruence]. destruct (Hcd y c0 E) as [Hu _].
+    destruct (proj1 (H1 y (uname_not_hid _ Hu)) Hl) as [Hin|Hin]; [exact Hin|]. exfalso. exact (uname_nfun _ Hu (Hlfuns _ Hin)).
+  Qed.
+  Lemma after_mono : forall B st y, In y B -> In y (after B st).
+  Proof. intros B st y H. destruct st; cbn [after]; try exact H. now right. Qed.
+  Lemma after_cd : forall il B st y, ok_stmt FT SP CD il B st = true -> In y CD -> In y (after B st) -> In y B.
+  Proof.
+    intros il B st y Hok Hy Hin. destruct st; cbn [after] in Hin; try exact Hin. destruct Hin as [<-|Hin]; [|exact Hin].
+    cbn [ok_stmt] in Hok. rewrite !Bool.andb_true_iff in Hok. destruct Hok as [[_ Hsh] _].
+    apply Bool.orb_true_iff in Hsh as [Hsh|Hsh]; [now apply mem_str_In|].
+    apply Bool.negb_true_iff in Hsh. apply In_mem_str in Hy. congruence.
+  Qed.
+
   Definition post (pins : pinset) (lr : nat) (sl : option nat) (bt ct fin : nat) (B' : list str) (env : fenv) (fs0 : list frame)
              (a : act) (g : gstate) (r : sres_) : Prop :=
     match r with
@@ -795,7 +823,7 @@ Section Sim.
           frames g' = skipn m fs0
       | SigContinue => exists m a' g', sl = Some m /\
           xrun prog name code a g a' g' /\ a_ip a' = ct /\ Rst pins (popn (m - 1) env') s' a' g' /\ act_same a a' /\
-          tl (frames g') = skipn m fs0 /\ lkeep lr (skipn (m - 1) fs0) (frames g')
+          tl (frames g') = skipn m fs0 /\ lkeep lr (skipn (m - 1) fs0) (frames g') /\ ncd B' (popn (m - 1) env')
       | SigReturn None => False
       | SigReturn (Some v) => exists env'' a' g',
           xrun prog name code a g a' g' /\ nth_error code (a_ip a') = Some (mkI OP_RET []) /\
@@ -828,6 +856,14 @@ Section Sim.
 
   Fixpoint after_l (B : list str) (l : list stmt) : list str :=
     match l with [] => B | st :: l => after_l (after B st) l end.
+
+  Lemma after_l_mono : forall l B y, In y B -> In y (after_l B l).
+  Proof. induction l as [|st l IH]; intros B y H; [exact H|]. cbn [after_l]. apply IH. now apply after_mono. Qed.
+  Lemma after_l_cd : forall l il B y, ok_block FT SP CD il B l = true -> In y CD -> In y (after_l B l) -> In y B.
+  Proof.
+    induction l as [|st l IH]; intros il B y Hok Hy Hin; [exact Hin|]. cbn [ok_block] in Hok. apply Bool.andb_true_iff in Hok as [H1 H2].
+    cbn [after_l] in Hin. exact (after_cd il B st y H1 Hy (IH il _ y H2 Hy Hin)).
+  Qed.
 
   Definition block_spec (l : list stmt) : Prop :=
     forall pins lr il sl bt ct fuel k a g env s B, fuel <= FU -> lr <= 2 * k ->
@@ -1968,7 +2004,7 @@ Section Sim.
   Proof.
     intros x e pins lr il sl bt ct fuel k a g env s B Hfu Hlr Hok Hb Hit Hend Hlc Hip Hcb HR. destruct Hend as [Hend|[Hend _]]; [|discriminate Hend].
     destruct fuel as [|fuel]; [exact Logic.I|].
-    cbn [ok_stmt] in Hok. rewrite !Bool.andb_true_iff in Hok. destruct Hok as [[Hx Hxf] Hoe].
+    cbn [ok_stmt] in Hok. rewrite !Bool.andb_true_iff in Hok. destruct Hok as [[[Hx Hxf] _] Hoe].
     apply Bool.negb_true_iff in Hxf. pose proof (uname_of_b x Hx Hxf) as Hxu. clear Hx. rename Hxu into Hx.
     cbn [sitems] in *. rewrite app_length, map_length in *. cbn [length] in *.
     apply items_at_app in Hit as [Hce Hi]. apply items_at_CI in Hce. rewrite map_length in Hi.
@@ -2194,7 +2230,7 @@ Section Sim.
     set (i1 := mkI OP_JMP_POP [sN (ct - k); sN (m - 1)]) in *.
     destruct (popn_rel (m - 1) env s (trc name a g i1) (Rg_trc _ _ _ _ _ _ HG) ltac:(lia)) as (g2 & Hpop & HG2 & Hfr2 & _).
     cbn [post]. split; [apply same_tl_refl; exact (Rg_ne _ _ _ HG)|].
-    exists m, (set_ip a ct), g2. split; [reflexivity|]. split; [|split; [reflexivity|split; [|split; [|split]]]].
+    exists m, (set_ip a ct), g2. split; [reflexivity|]. split; [|split; [reflexivity|split; [|split; [|split; [|split]]]]].
     - eapply (xstep_gotopop prog name code a g i1 _ k _ (m - 1) a); [exact Hip|exact Hi| |apply exec_jmp_pop| |exact Hpop].
       + apply dec_jmp_pop2; apply small_code; lia.
       + rewrite Hip. rewrite goto_fwd by lia. f_equal. lia.
@@ -2202,6 +2238,7 @@ Section Sim.
     - repeat split.
     - rewrite Hfr2. cbn [trc add_trace frames]. rewrite tl_skipn. f_equal. lia.
     - apply lkeep_eq. rewrite Hfr2. reflexivity.
+    - cbn [after]. apply ncd_popn. apply ncd_of_bound. exact Hb.
   Qed.
 
   (* ================================================================ sequencing *)
@@ -2245,8 +2282,8 @@ Section Sim.
       repeat (split; [assumption|]). split; [congruence|eapply lkeep_trans; eassumption].
     - destruct H as (m & a' & g' & Hsl & R & Hip & HR & Ha & Hf). exists m, a', g'.
       repeat (split; [assumption|]). rewrite Hf. apply skipn_tl_eq; [now apply Hm|exact Htl].
-    - destruct H as (m & a' & g' & Hsl & R & Hip & HR & Ha & Hf & Hk). exists m, a', g'.
-      repeat (split; [assumption|]). split; [rewrite Hf; apply skipn_tl_eq; [now apply Hm|exact Htl]|].
+    - destruct H as (m & a' & g' & Hsl & R & Hip & HR & Ha & Hf & Hk & Hn). exists m, a', g'.
+      repeat (split; [assumption|]). split; [rewrite Hf; apply skipn_tl_eq; [now apply Hm|exact Htl]|]. split; [|exact Hn].
       pose proof (Hm m Hsl) as Hm1. destruct (m - 1) as [|m'] eqn:Em.
       + cbn [skipn] in *. eapply lkeep_trans; eassumption.
       + rewrite <- (skipn_tl_eq _ (S m') fs1 fs0 ltac:(lia) Htl). exact Hk.
@@ -2303,7 +2340,8 @@ Section Sim.
         eapply post_seq; [exact R1|exact Hd|exact Ha1|].
         eapply post_rebase; [exact H2|exact Hf1|exact Hlk1|exact (lc_ok_m _ _ _ _ _ _ Hlc)].
       + exact H1.
-      + exact H1.
+      + cbn [post] in H1 |- *. destruct H1 as [Hd (m & a' & g' & Esl & R & Hip' & HR' & Ha' & Hf' & Hk' & Hn')]. split; [exact Hd|].
+        exists m, a', g'. repeat (split; [assumption|]). cbn [after_l]. eapply ncd_mono; [|exact Hn']. intros y Hy. now apply after_l_mono.
       + exact H1.
   Qed.
 
@@ -2399,12 +2437,14 @@ Section Sim.
       destruct sl as [m|]; [|discriminate]. cbn [option_map] in Esl. inversion Esl; subst m'.
       exists m, a2, g2. split; [reflexivity|]. split; [exact R2|]. split; [exact Hip2|]. split; [|split; [exact Ha2|exact Hf2]].
       rewrite popn_S_pop. exact HR2.
-    - destruct H as (m' & a2 & g2 & Esl & R2 & Hip2 & HR2 & Ha2 & Hf2 & Hlk2).
+    - destruct H as (m' & a2 & g2 & Esl & R2 & Hip2 & HR2 & Ha2 & Hf2 & Hlk2 & Hn2).
       destruct sl as [m|]; [|discriminate]. cbn [option_map] in Esl. inversion Esl; subst m'.
       destruct Hlc as [_ H1]. destruct (H1 m eq_refl) as (A1 & _).
-      exists m, a2, g2. split; [reflexivity|]. split; [exact R2|]. split; [exact Hip2|]. split; [|split; [exact Ha2|split; [exact Hf2|]]].
+      exists m, a2, g2. split; [reflexivity|]. split; [exact R2|]. split; [exact Hip2|]. split; [|split; [exact Ha2|split; [exact Hf2|split]]].
       + rewrite popn_S_pop. replace (S (m - 1)) with (S m - 1) by lia. exact HR2.
       + destruct m as [|m0]; [lia|]. cbn [Nat.sub] in Hlk2 |- *. rewrite Nat.sub_0_r in *. exact Hlk2.
+      + rewrite popn_S_pop. replace (S (m - 1)) with (S m - 1) by lia. intros y Hy Hl.
+        eapply after_l_cd; [exact Hok|exact Hy|exact (Hn2 y Hy Hl)].
   Qed.
 
   Lemma not_bool_inj : forall v, (forall b, v <> RBool b) -> forall b, inj v <> VBool b.
@@ -3015,6 +3055,40 @@ Section Sim.
   Lemma lregn_inj : forall a b, small a -> small b -> lregn a = lregn b -> a = b.
   Proof. intros a b Ha Hb E. unfold lregn in E. apply app_inv_head in E. now apply sN_inj. Qed.
 
+  (* the step expression of a from loop: the VM evaluates it inside the loop-body scope, the reference semantics outside;
+     its variables (locals of the enclosing scopes, captured data variables) are not shadowed by the body's scope *)
+  Lemma step_vars : forall pins envL env2 s2 g2 Bb body e,
+    Rg pins env2 s2 g2 -> ok_expr (Bb ++ CD) e = true -> ok_block FT SP CD true Bb body = true ->
+    bound_in Bb envL -> tl (locals env2) = locals envL -> locals env2 <> [] ->
+    ncd (after_l Bb body) env2 ->
+    (forall y, In y (used_e e) -> vsrc env2 y) /\ (forall y, In y (used_e e) -> agree (pop_scope env2) s2 env2 s2 y).
+  Proof.
+    intros pins envL env2 s2 g2 Bb body e HG Hok Hokb Hb Htl Hne Hn.
+    apply ok_expr_parts in Hok as (_ & _ & Hu).
+    assert (Hcore : forall y, In y (used_e e) -> vsrc env2 y /\ lookup_scopes y (tl (locals env2)) = lookup_scopes y (locals env2)).
+    { intros y Hy. destruct (Hu y Hy) as [Hu0 Hin].
+      destruct (in_dec (list_eq_dec N.eq_dec) y Bb) as [HyB|HyB].
+      - pose proof (bound_in_uname _ _ _ Hb Hu0 HyB) as Hun. pose proof (bound_in_look _ _ _ Hb HyB) as Hl. rewrite <- Htl in Hl.
+        destruct (lookup_scopes y (tl (locals env2))) as [c0|] eqn:E; [|congruence].
+        assert (E2 : lookup_scopes y (locals env2) = Some c0).
+        { pose proof (Rg_ns _ _ _ HG) as Hns. destruct (locals env2) as [|sc2 l2]; [congruence|]. cbn [tl] in E.
+          apply NS_lookup_tl; [exact Hns|exact (uname_not_hid _ Hun)|exact E]. }
+        split; [apply vsrc_local; [exact Hun|congruence]|congruence].
+      - apply in_app_or in Hin as [Hin|Hin]; [contradiction|].
+        assert (E2 : lookup_scopes y (locals env2) = None).
+        { destruct (lookup_scopes y (locals env2)) eqn:E; [|reflexivity]. exfalso. apply HyB.
+          eapply after_l_cd; [exact Hokb|exact Hin|]. apply (Hn y Hin). congruence. }
+        assert (E1 : lookup_scopes y (tl (locals env2)) = None).
+        { destruct (lookup_scopes y (tl (locals env2))) eqn:E; [|reflexivity]. exfalso.
+          apply (lookup_tl_ne (locals env2) y); congruence. }
+        split; [|congruence]. pose proof (In_CD_assoc y Hin) as Ha. destruct (assoc y cdsc) as [c0|] eqn:E; [|congruence].
+        split; [exact (proj1 (Hcd y c0 E))|]. right. split; [exact E2|congruence]. }
+    split; [intros y Hy; exact (proj1 (Hcore y Hy))|].
+    intros y Hy. destruct (Hcore y Hy) as [Hv He]. destruct (vsrc_lookup pins env2 s2 g2 y HG Hv) as (c0 & v & E1 & _ & E3 & _).
+    exists c0, c0, v. split; [|split; [exact E3|split; [exact E1|exact E3]]].
+    cbn [pop_scope locals captured]. rewrite lookup_app_split, He, <- lookup_app_split. exact E1.
+  Qed.
+
   Lemma from_named_correct : forall a0 b incl step x collide body, block_spec body ->
     stmt_spec (SFrom a0 b incl step (Some x) collide body).
   Proof.
@@ -3023,7 +3097,7 @@ Section Sim.
     rewrite ok_SFrom in Hok. rewrite !Bool.andb_true_iff in Hok. destruct Hok as [[Hoa Hob] Hok].
     set (Bb := if collide then B else x :: B).
     assert (Hparts : uname x /\ (if collide then In x B /\ used_e b = [] else mem_str x B = false /\ ~ In x (used_e b)) /\
-                     step_ok Bb step = true /\ ok_block FT SP CD true Bb body = true).
+                     step_ok (Bb ++ CD) step = true /\ ok_block FT SP CD true Bb body = true).
     { unfold Bb. destruct collide; rewrite !Bool.andb_true_iff in Hok.
       - destruct Hok as [[[[[Hx Hxf] HxB] Hub] Hst] Hokb]. apply Bool.negb_true_iff in Hxf.
         split; [exact (uname_of_b x Hx Hxf)|]. split; [split; [now apply mem_str_In|destruct (used_e b); [reflexivity|discriminate]]|]. auto.
@@ -3329,7 +3403,7 @@ Section Sim.
       assert (Epop : locals (pop_scope env2) = lL) by exact Htl2.
       (* after the body: the step, the back edge, the next iteration *)
       assert (Hnext : forall aB gB, xrun prog name code a0' g0 aB gB -> a_ip aB = ks -> Rst pins' env2 s2 aB gB ->
-                act_same a0' aB -> tl (frames gB) = F2 :: R ->
+                act_same a0' aB -> tl (frames gB) = F2 :: R -> ncd (after_l Bb body) env2 ->
                 post pins lr sl bt ct fin B envL (frames g) aL gL
                   (match eval (S fuel) (pop_scope env2) se s2 with
                    | EVal sv s0 =>
@@ -3340,27 +3414,13 @@ Section Sim.
                        else SFailed FOverflow s0
                      | _, _ => SFailed (FType 13) s0 end
                    | ENoVal s0 => SFailed (FType 3) s0 | EFail f s0 => SFailed f s0 | EFuel => SFuel end)).
-      { intros aB gB RB HipB (HGB & HopsB & HssB) HaB HfB.
+      { intros aB gB RB HipB (HGB & HopsB & HssB) HaB HfB Hncd2.
         assert (Hup : forall y c0, y <> hid -> lookup_scopes y lL = Some c0 -> lookup_scopes y (locals env2) = Some c0).
         { intros y c0 Hyh Hy. destruct (locals env2) as [|sc2 l2] eqn:E2l; [discriminate|]. cbn [tl] in Htl2.
           rewrite <- Htl2 in Hy. apply NS_lookup_tl; [|exact Hyh|exact Hy]. rewrite <- E2l. exact (Rg_ns _ _ _ HGB). }
         assert (Hlx2 : lookup_scopes x (locals env2) = Some cx) by (apply Hup; [exact (uname_not_hid _ Hx)|exact HlxL]).
         (* the step expression: the reference semantics evaluates it outside the loop scope; same result *)
-        assert (Huse2 : forall y, In y (used_e se) -> uname y /\ lookup_scopes y (locals env2) <> None).
-        { intros y Hy. destruct (Huse y Hy) as [Hun Hin]. split; [exact (bound_in_uname _ _ _ (HbL envL ElL) Hun Hin)|].
-          pose proof (bound_in_look _ _ _ (HbL envL ElL) Hin) as Hbd. rewrite ElL in Hbd.
-          destruct (lookup_scopes y lL) as [c0|] eqn:Ey; [|congruence].
-          rewrite (Hup y c0 (uname_not_hid _ (bound_in_uname _ _ _ (HbL envL ElL) Hun Hin)) Ey). discriminate. }
-        assert (Huse2v : forall y, In y (used_e se) -> vsrc env2 y).
-        { intros y Hy. destruct (Huse2 y Hy) as [Hun Hbd]. exact (vsrc_local env2 y Hun Hbd). }
-        assert (Hag : forall y, In y (used_e se) -> agree (pop_scope env2) s2 env2 s2 y).
-        { intros y Hy. destruct (Huse2 y Hy) as [Hun Hbd].
-          destruct (Rg_lookup _ _ _ _ HGB Hun Hbd) as (c0 & c0x & v0 & F1 & _ & _ & F2' & _).
-          destruct (Huse y Hy) as [_ Hin]. pose proof (bound_in_look _ _ _ (HbL envL ElL) Hin) as Hbd0. rewrite ElL in Hbd0.
-          destruct (lookup_scopes y lL) as [c1|] eqn:Ey; [|congruence].
-          assert (c1 = c0) by (pose proof (Hup y c1 (uname_not_hid _ Hun) Ey) as H0; congruence). subst c1.
-          exists c0, c0, v0. split; [apply lookup_app_some; change (locals (pop_scope env2)) with (tl (locals env2)); rewrite Htl2; exact Ey|].
-          split; [exact F2'|]. split; [now apply lookup_app_some|exact F2']. }
+        destruct (step_vars pins' envL env2 s2 gB Bb body se HGB Hst Hokb (HbL envL ElL) ltac:(rewrite ElL; exact Htl2) Hne2 Hncd2) as [Huse2v Hag].
         destruct (eval_pure_congr se Hpse (S fuel) (pop_scope env2) s2 env2 s2 Hag) as [Hst_s Es].
         pose proof (expr_run_gen pins' se c (S fuel) ks aB gB env2 s2 Hpse Hlse Huse2v ltac:(lia) Hcs'
                       ltac:(fold ls; unfold fin, kd, kj, kp in *; lia) HipB HopsB ltac:(rewrite (proj2 (proj2 HaB)); exact HcbL) HGB) as Hes.
@@ -3411,8 +3471,8 @@ Section Sim.
       assert (Eg0 : frames g0 = {| lab := LWhile; vars := [] |} :: F2 :: R).
       { unfold g0, push_frame. cbn [with_frames frames]. change (frames gct) with (frames gc). now rewrite Efc, EfL. }
       destruct sig as [| | |rv].
-      - destruct H as (_ & aB & gB & RB & HipB & HRB & HaB & HfB & _). rewrite Eg0 in HfB. cbn [tl] in HfB. cbv zeta. rewrite Hstepc.
-        apply (Hnext aB gB RB HipB HRB HaB HfB).
+      - destruct H as (HB2 & aB & gB & RB & HipB & HRB & HaB & HfB & _). rewrite Eg0 in HfB. cbn [tl] in HfB. cbv zeta. rewrite Hstepc.
+        apply (Hnext aB gB RB HipB HRB HaB HfB (ncd_of_bound _ _ HB2)).
       - (* break *)
         destruct H as (m & aB & gB & Esl & RB & HipB & HRB & HaB & HfB). inversion Esl; subst m.
         rewrite Eg0 in HfB. cbn [skipn] in HfB.
@@ -3426,10 +3486,10 @@ Section Sim.
         destruct HaB as (A1 & A2 & A3), Ha6 as (B1 & B2 & B3).
         repeat split; [rewrite B1, A1|rewrite B2, A2|rewrite B3, A3]; reflexivity.
       - (* continue *)
-        destruct H as (m & aB & gB & Esl & RB & HipB & HRB & HaB & HfB & _). inversion Esl; subst m.
+        destruct H as (m & aB & gB & Esl & RB & HipB & HRB & HaB & HfB & _ & HnB). inversion Esl; subst m.
         rewrite Eg0 in HfB. cbn [skipn] in HfB.
-        cbn [Nat.sub] in HRB. rewrite popn_0 in HRB. cbv zeta. rewrite Hstepc.
-        apply (Hnext aB gB RB HipB HRB HaB HfB).
+        cbn [Nat.sub] in HRB, HnB. rewrite popn_0 in HRB, HnB. cbv zeta. rewrite Hstepc.
+        apply (Hnext aB gB RB HipB HRB HaB HfB HnB).
       - (* return from inside the loop *)
         destruct rv as [v|]; [|destruct H].
         destruct H as (env'' & aB & gB & RB & HiB & HoB & HfoB & HGB & HaB).
@@ -3748,6 +3808,7 @@ Section Sim.
       (* after the body: the step, the back edge, the next iteration *)
       assert (Hnext : forall aB gB, xrun prog name code a0' g0 aB gB -> a_ip aB = ks -> Rst (pL i) env2 s2 aB gB ->
                 act_same a0' aB -> tl (frames gB) = F2 :: R -> find_in_function idn (frames gB) = Some c' ->
+                ncd (after_l B body) env2 ->
                 post pins lr sl bt ct fin B envL (frames g) aL gL
                   (match eval (S fuel) (pop_scope env2) se s2 with
                    | EVal sv s0 =>
@@ -3758,26 +3819,12 @@ Section Sim.
                        else SFailed FOverflow s0
                      | _, _ => SFailed (FType 13) s0 end
                    | ENoVal s0 => SFailed (FType 3) s0 | EFail f s0 => SFailed f s0 | EFuel => SFuel end)).
-      { intros aB gB RB HipB (HGB & HopsB & HssB) HaB HfB HidB.
+      { intros aB gB RB HipB (HGB & HopsB & HssB) HaB HfB HidB Hncd2.
         assert (Hup : forall y c0, y <> hid -> lookup_scopes y lL = Some c0 -> lookup_scopes y (locals env2) = Some c0).
         { intros y c0 Hyh Hy. destruct (locals env2) as [|sc2 l2] eqn:E2l; [discriminate|]. cbn [tl] in Htl2.
           rewrite <- Htl2 in Hy. apply NS_lookup_tl; [|exact Hyh|exact Hy]. rewrite <- E2l. exact (Rg_ns _ _ _ HGB). }
         (* the step expression: the reference semantics evaluates it outside the loop scope; same result *)
-        assert (Huse2 : forall y, In y (used_e se) -> uname y /\ lookup_scopes y (locals env2) <> None).
-        { intros y Hy. destruct (Huse y Hy) as [Hun Hin]. split; [exact (bound_in_uname _ _ _ (HbL envL ElL) Hun Hin)|].
-          pose proof (bound_in_look _ _ _ (HbL envL ElL) Hin) as Hbd. rewrite ElL in Hbd.
-          destruct (lookup_scopes y lL) as [c0|] eqn:Ey; [|congruence].
-          rewrite (Hup y c0 (uname_not_hid _ (bound_in_uname _ _ _ (HbL envL ElL) Hun Hin)) Ey). discriminate. }
-        assert (Huse2v : forall y, In y (used_e se) -> vsrc env2 y).
-        { intros y Hy. destruct (Huse2 y Hy) as [Hun Hbd]. exact (vsrc_local env2 y Hun Hbd). }
-        assert (Hag : forall y, In y (used_e se) -> agree (pop_scope env2) s2 env2 s2 y).
-        { intros y Hy. destruct (Huse2 y Hy) as [Hun Hbd].
-          destruct (Rg_lookup _ _ _ _ HGB Hun Hbd) as (c0 & c0x & v0 & F1' & _ & _ & F2' & _).
-          destruct (Huse y Hy) as [_ Hin]. pose proof (bound_in_look _ _ _ (HbL envL ElL) Hin) as Hbd0. rewrite ElL in Hbd0.
-          destruct (lookup_scopes y lL) as [c1|] eqn:Ey; [|congruence].
-          assert (c1 = c0) by (pose proof (Hup y c1 (uname_not_hid _ Hun) Ey) as H0; congruence). subst c1.
-          exists c0, c0, v0. split; [apply lookup_app_some; change (locals (pop_scope env2)) with (tl (locals env2)); rewrite Htl2; exact Ey|].
-          split; [exact F2'|]. split; [now apply lookup_app_some|exact F2']. }
+        destruct (step_vars (pL i) envL env2 s2 gB B body se HGB Hst Hokb (HbL envL ElL) ltac:(rewrite ElL; exact Htl2) Hne2 Hncd2) as [Huse2v Hag].
         destruct (eval_pure_congr se Hpse (S fuel) (pop_scope env2) s2 env2 s2 Hag) as [Hst_s Es].
         pose proof (expr_run_gen (pL i) se c (S fuel) ks aB gB env2 s2 Hpse Hlse Huse2v ltac:(lia) Hcs'
                       ltac:(fold ls; unfold fin, kd, kj, kp in *; lia) HipB HopsB ltac:(rewrite (proj2 (proj2 HaB)); exact HcbL) HGB) as Hes.
@@ -3827,8 +3874,8 @@ Section Sim.
                       | EFail f s0 => SFailed f s0 | EFuel => SFuel end).
       { intros e' s' bump. unfold se. destruct step as [e|]; reflexivity. }
       destruct sig as [| | |rv].
-      - destruct H as (_ & aB & gB & RB & HipB & HRB & HaB & HfB & HlkB). rewrite Eg0 in HfB. cbn [tl] in HfB. cbv zeta. rewrite Hstepc.
-        apply (Hnext aB gB RB HipB HRB HaB HfB). exact (eq_trans (HlkB (S lr) ltac:(lia)) Hid0).
+      - destruct H as (HB2 & aB & gB & RB & HipB & HRB & HaB & HfB & HlkB). rewrite Eg0 in HfB. cbn [tl] in HfB. cbv zeta. rewrite Hstepc.
+        apply (Hnext aB gB RB HipB HRB HaB HfB); [exact (eq_trans (HlkB (S lr) ltac:(lia)) Hid0)|exact (ncd_of_bound _ _ HB2)].
       - (* break *)
         destruct H as (m & aB & gB & Esl & RB & HipB & HRB & HaB & HfB). inversion Esl; subst m.
         rewrite Eg0 in HfB. cbn [skipn] in HfB.
@@ -3842,10 +3889,10 @@ Section Sim.
         destruct HaB as (A1 & A2 & A3), Ha6 as (B1 & B2 & B3).
         repeat split; [rewrite B1, A1|rewrite B2, A2|rewrite B3, A3]; reflexivity.
       - (* continue *)
-        destruct H as (m & aB & gB & Esl & RB & HipB & HRB & HaB & HfB & HlkB). inversion Esl; subst m.
+        destruct H as (m & aB & gB & Esl & RB & HipB & HRB & HaB & HfB & HlkB & HnB). inversion Esl; subst m.
         rewrite Eg0 in HfB. cbn [skipn] in HfB.
-        cbn [Nat.sub] in HRB, HlkB. rewrite popn_0 in HRB. cbn [skipn] in HlkB. cbv zeta. rewrite Hstepc.
-        apply (Hnext aB gB RB HipB HRB HaB HfB). exact (eq_trans (HlkB (S lr) ltac:(lia)) Hid0).
+        cbn [Nat.sub] in HRB, HlkB, HnB. rewrite popn_0 in HRB, HnB. cbn [skipn] in HlkB. cbv zeta. rewrite Hstepc.
+        apply (Hnext aB gB RB HipB HRB HaB HfB); [exact (eq_trans (HlkB (S lr) ltac:(lia)) Hid0)|exact HnB].
       - (* return from inside the loop *)
         destruct rv as [v|]; [|destruct H].
         destruct H as (env'' & aB & gB & RB & HiB & HoB & HfoB & HGB & HaB).
